@@ -115,6 +115,7 @@ type Measurement struct {
 	Mode  int        `json:"mode"` // 1 fraction of available water, 2, 3 absolute
 	Water [6]float64 `json:"water"`
 	Short bool       `json:"short,omitempty"` // only the classes down to 9 dm are given (short text line / empty csv cells)
+	Again int        `json:"again,omitempty"` // > 0: the file holds a second sampling of the plot, this many days later, with other values (the model uses the first)
 }
 
 type AutoLine struct {
@@ -855,6 +856,9 @@ func GenWorld(r *RNG, p Profile, pt *ParamTables) *World {
 	m.Mode = 1
 	for i := range m.Water {
 		m.Water[i] = round(r.FRange(0.2, 1.0), 3)
+	}
+	if r.Bool(0.25) {
+		m.Again = r.Range(20, 400)
 	}
 	if r.Bool(0.15) {
 		// absolute volumetric water contents (mode 3) of a dry to air-dry profile: far below the wilting point of most soils
